@@ -586,10 +586,10 @@ package leveldb
 
 // The oversized-batch path of DB.Write is all-or-nothing: a failed fill or commit discards the transaction.
 //@ func (*DB).Write
-//@   props C11
+//@   props C11 C10
 //@   at before call (*Transaction).Commit#1
-//@     assert [C11:commit-only-after-complete-fill] err == nil
-//@   ensures [C11:failed-large-batch-is-discarded] (result != nil && calls("(*DB).OpenTransaction") > old(calls("(*DB).OpenTransaction")) && lastok("(*DB).OpenTransaction") == last("(*DB).OpenTransaction")) ==> calls("(*Transaction).Discard") > old(calls("(*Transaction).Discard"))
+//@     assert [C10,C11:commit-only-after-complete-fill] err == nil
+//@   ensures [C10,C11:failed-large-batch-is-discarded] (result != nil && calls("(*DB).OpenTransaction") > old(calls("(*DB).OpenTransaction")) && lastok("(*DB).OpenTransaction") == last("(*DB).OpenTransaction")) ==> calls("(*Transaction).Discard") > old(calls("(*Transaction).Discard"))
 //@ count (*DB).OpenTransaction
 //@ count (*Transaction).Discard
 
@@ -641,26 +641,26 @@ package leveldb
 //@ spec func sortedDisjoint(tf ref) bool = (forall i int :: 0 <= i && i < len(tf) ==> (tf[i] != nil && !isnil(tf[i].imin) && !isnil(tf[i].imax) && kcmp(ukeyof(tf[i].imin), ukeyof(tf[i].imax)) <= 0)) && (forall i, j int :: 0 <= i && i < j && j < len(tf) ==> kcmp(ukeyof(tf[i].imax), ukeyof(tf[j].imin)) < 0)
 
 //@ func (*tFile).after
-//@   props C06 C01
+//@   props C06 C01 C19 C03
 //@   abstract keys
 //@   ensures result == kafter(t, ukey)
 //@ func (*tFile).before
-//@   props C06 C01
+//@   props C06 C01 C19 C03
 //@   abstract keys
 //@   ensures result == kbefore(t, ukey)
 //@ func (*tFile).overlaps
-//@   props C06 C01
+//@   props C06 C01 C19 C03
 //@   abstract keys
 //@   ensures result == ovl(t, umin, umax)
 
 //@ func (tFiles).searchMinUkey
-//@   props C06 C01
+//@   props C06 C01 C19 C03
 //@   abstract keys
 //@   requires sortedDisjoint(tf)
 //@   ensures [partition-point] 0 <= result && result <= len(tf) && (forall j int :: 0 <= j && j < result ==> kcmp(ukeyof(tf[j].imin), umin) <= 0) && (forall j int :: result <= j && j < len(tf) ==> kcmp(ukeyof(tf[j].imin), umin) > 0)
 
 //@ func (tFiles).searchMaxUkey
-//@   props C06 C01
+//@   props C06 C01 C19 C03
 //@   abstract keys
 //@   requires sortedDisjoint(tf)
 //@   ensures [partition-point] 0 <= result && result <= len(tf) && (forall j int :: 0 <= j && j < result ==> kcmp(ukeyof(tf[j].imax), umax) <= 0) && (forall j int :: result <= j && j < len(tf) ==> kcmp(ukeyof(tf[j].imax), umax) > 0)
@@ -671,13 +671,13 @@ package leveldb
 //@ ghost var gOvB int
 //@ ghost var gOvE int
 //@ func (tFiles).getOverlaps
-//@   props C06 C01
+//@   props C06 C01 C19 C03
 //@   abstract keys
 //@   requires !overlapped ==> sortedDisjoint(tf)
-//@   guarantees [C01,C06:overlap-search-exact] (!overlapped && len(tf) > 0) ==> (0 <= begin && end <= len(tf))
-//@   guarantees [C01,C06:overlap-search-exact-none-missed] (!overlapped && len(tf) > 0) ==> (forall i int :: (0 <= i && i < len(tf) && ovl(tf[i], umin, umax)) ==> (begin <= i && i < end))
-//@   guarantees [C01,C06:overlap-search-exact-none-extra] (!overlapped && len(tf) > 0) ==> (forall i int :: (0 <= i && i < len(tf) && begin <= i && i < end) ==> ovl(tf[i], umin, umax))
-//@   guarantees [C01,C06:result-is-that-range] (!overlapped && len(tf) > 0) ==> (begin < end ==> len(result) == end - begin && forall j int :: 0 <= j && j < end - begin ==> result[j] == tf[begin + j])
+//@   guarantees [C01,C03,C06,C19:overlap-search-exact] (!overlapped && len(tf) > 0) ==> (0 <= begin && end <= len(tf))
+//@   guarantees [C01,C03,C06,C19:overlap-search-exact-none-missed] (!overlapped && len(tf) > 0) ==> (forall i int :: (0 <= i && i < len(tf) && ovl(tf[i], umin, umax)) ==> (begin <= i && i < end))
+//@   guarantees [C01,C03,C06,C19:overlap-search-exact-none-extra] (!overlapped && len(tf) > 0) ==> (forall i int :: (0 <= i && i < len(tf) && begin <= i && i < end) ==> ovl(tf[i], umin, umax))
+//@   guarantees [C01,C03,C06,C19:result-is-that-range] (!overlapped && len(tf) > 0) ==> (begin < end ==> len(result) == end - begin && forall j int :: 0 <= j && j < end - begin ==> result[j] == tf[begin + j])
 // what a caller learns: the result is the index range [gOvB, gOvE) of tf (ghost out-parameters), and that range is
 // exactly the set of tables overlapping [umin, umax]
 //@   at before stmt return nil#2
@@ -689,16 +689,16 @@ package leveldb
 //@   modifies dst[0:cap(dst)], gOvB, gOvE
 //@   loop 1
 //@     modifies dst[0:cap(dst)]
-//@     invariant [C01,C06:level-0-search-range-is-closed-so-far] 0 <= i && (forall k int :: (0 <= k && k < i && k < len(tf) && ovl(tf[k], umin, umax)) ==> inRange(tf[k], umin, umax))
-//@     invariant [C01,C06:result-list-is-the-callers-or-new] (samebase(dst, old(dst)) && cap(dst) == cap(old(dst))) || freshbase(dst)
+//@     invariant [C01,C03,C06,C19:level-0-search-range-is-closed-so-far] 0 <= i && (forall k int :: (0 <= k && k < i && k < len(tf) && ovl(tf[k], umin, umax)) ==> inRange(tf[k], umin, umax))
+//@     invariant [C01,C03,C06,C19:result-list-is-the-callers-or-new] (samebase(dst, old(dst)) && cap(dst) == cap(old(dst))) || freshbase(dst)
 // In a level whose tables may overlap each other (level 0) the search range is widened until it is closed: every
 // table that overlaps the final range lies inside it, so no table left behind shares a user key with a table taken.
-//@   guarantees [C01,C06:level-0-search-range-is-closed] (overlapped && len(tf) > 0) ==> (forall k int :: (0 <= k && k < len(tf) && ovl(tf[k], umin, umax)) ==> inRange(tf[k], umin, umax))
-//@   ensures [C06:empty-level-has-no-overlaps] len(tf) == 0 ==> len(result) == 0
-//@   ensures [C01,C06:result-list-is-the-callers-or-new] isnil(result) || base(result) == base(old(dst)) || freshbase(result)
-//@   ensures [C01,C06:binary-search-mode-leaves-the-callers-list-alone] !overlapped ==> (unchanged(old(dst)) && (isnil(result) || freshbase(result)))
-//@   ensures [C06:overlap-search-result-is-an-index-range] (!overlapped && len(tf) > 0) ==> (0 <= gOvB && gOvB <= gOvE && gOvE <= len(tf) && len(result) == gOvE - gOvB && (forall j int :: 0 <= j && j < gOvE - gOvB ==> result[j] == tf[gOvB + j]))
-//@   ensures [C06:overlap-search-range-is-exact] (!overlapped && len(tf) > 0) ==> (forall i int :: 0 <= i && i < len(tf) ==> (ovl(tf[i], umin, umax) <==> (gOvB <= i && i < gOvE)))
+//@   guarantees [C01,C03,C06,C19:level-0-search-range-is-closed] (overlapped && len(tf) > 0) ==> (forall k int :: (0 <= k && k < len(tf) && ovl(tf[k], umin, umax)) ==> inRange(tf[k], umin, umax))
+//@   ensures [C03,C06,C19:empty-level-has-no-overlaps] len(tf) == 0 ==> len(result) == 0
+//@   ensures [C01,C03,C06,C19:result-list-is-the-callers-or-new] isnil(result) || base(result) == base(old(dst)) || freshbase(result)
+//@   ensures [C01,C03,C06,C19:binary-search-mode-leaves-the-callers-list-alone] !overlapped ==> (unchanged(old(dst)) && (isnil(result) || freshbase(result)))
+//@   ensures [C03,C06,C19:overlap-search-result-is-an-index-range] (!overlapped && len(tf) > 0) ==> (0 <= gOvB && gOvB <= gOvE && gOvE <= len(tf) && len(result) == gOvE - gOvB && (forall j int :: 0 <= j && j < gOvE - gOvB ==> result[j] == tf[gOvB + j]))
+//@   ensures [C03,C06,C19:overlap-search-range-is-exact] (!overlapped && len(tf) > 0) ==> (forall i int :: 0 <= i && i < len(tf) ==> (ovl(tf[i], umin, umax) <==> (gOvB <= i && i < gOvE)))
 
 // C06: the inputs of a compaction. Whatever the source-level inputs end up being (after the growth step too), the
 // parent-level inputs are exactly the parent tables that overlap the user-key range of the source inputs: a parent
@@ -1060,12 +1060,12 @@ package leveldb
 // The key range of a set of tables covers every table of the set (it decides which tables of the next level a
 // compaction must take in, so that levels stay disjoint).
 //@ func (tFiles).getRange
-//@   props C01 C06
+//@   props C01 C06 C19 C03
 //@   abstract keys
 //@   safety off
 //@   loop 1
 //@     invariant forall j int :: 0 <= j && j < rangeidx ==> (ikcmp(imin, tf[j].imin) <= 0 && ikcmp(imax, tf[j].imax) >= 0)
-//@   ensures [C01,C06:range-covers-every-table] forall j int :: 0 <= j && j < len(tf) ==> (ikcmp(imin, tf[j].imin) <= 0 && ikcmp(imax, tf[j].imax) >= 0)
+//@   ensures [C01,C03,C06,C19:range-covers-every-table] forall j int :: 0 <= j && j < len(tf) ==> (ikcmp(imin, tf[j].imin) <= 0 && ikcmp(imax, tf[j].imax) >= 0)
 
 // A compaction that is retried after a storage error resumes from the cursor state saved at the last table
 // boundary; the saved state must be a copy, not an alias of the live cursors.
@@ -1181,6 +1181,12 @@ package leveldb
 //@   props C18
 //@   safety off
 //@   guarantees [C18:read-only-open-never-creates-a-db] (s != nil && s.o != nil && s.o.Options != nil && s.o.Options.ReadOnly) ==> (calls("storage.Storage.Create") == old(calls("storage.Storage.Create")) && calls("storage.Storage.Remove") == old(calls("storage.Storage.Remove")) && calls("storage.Storage.Rename") == old(calls("storage.Storage.Rename")) && calls("storage.Storage.SetMeta") == old(calls("storage.Storage.SetMeta")))
+// ... and OpenFile / RecoverFile open the directory the way the options say: read-only when the DB is.
+//@ func OpenFile
+//@   props C18
+//@   safety off
+//@   at before call OpenFile#1
+//@     assert [C18:read-only-db-opens-its-directory-read-only] arg1 == (o != nil && o.ReadOnly)
 // After Close every method answers with the closed error and leaves the storage alone (a second Close too).
 //@ func (*DB).Get
 //@   props C18
@@ -1290,7 +1296,7 @@ package leveldb
 // tables with a common user key into one level); a spurious "overlaps" only costs a level.
 //@ spec func numsOK(tf ref) bool = forall i int :: 0 <= i && i < len(tf) ==> (numof(tf[i].imax) <= keyMaxNum && numof(tf[i].imin) <= keyMaxNum)
 //@ func (tFiles).searchMax
-//@   props C06 C01
+//@   props C06 C01 C19 C03
 //@   abstract keys
 //@   requires sortedDisjoint(tf)
 //@   ensures [partition-point] 0 <= result && result <= len(tf) && (forall j int :: 0 <= j && j < result ==> ikcmp(tf[j].imax, ikey) < 0) && (forall j int :: result <= j && j < len(tf) ==> ikcmp(tf[j].imax, ikey) >= 0)
@@ -1321,13 +1327,13 @@ package leveldb
 //@   at after stmt nt = append(nt[:index], append(added, nt[index:]...)...)#2
 //@     assert [C06:spliced-level-stays-sorted-and-disjoint] sortedDisjoint(nt)
 //@ func (tFiles).overlaps
-//@   props C06 C01
+//@   props C06 C01 C19 C03
 //@   abstract keys
 //@   safety off
 //@   requires !unsorted ==> (sortedDisjoint(tf) && numsOK(tf))
 //@   loop 1
 //@     invariant forall j int :: 0 <= j && j < rangeidx ==> !ovl(tf[j], umin, umax)
-//@   ensures [C01,C06:no-overlap-means-none] !result ==> (forall i int :: 0 <= i && i < len(tf) ==> !ovl(tf[i], umin, umax))
+//@   ensures [C01,C03,C06,C19:no-overlap-means-none] !result ==> (forall i int :: 0 <= i && i < len(tf) ==> !ovl(tf[i], umin, umax))
 
 // ---------------------------------------------------------------------------
 // C02: a forward step of the DB iterator surfaces the newest visible version of the next user key and nothing
